@@ -136,6 +136,21 @@ def run_case(case, ctx):
         train[c0] = col
         train[c0] = train[c0].astype(object)
         ctx.cls("column-without-category-at-fit")
+    same_vocab = bool(ncat >= 2 and case["sub"] % 6 == 5 and not intcat)
+    if same_vocab:
+        # two categorical columns with exactly the same training vocabulary (yes / no / unknown answers to two questions)
+        c0, c1 = cat_cols_all[0], cat_cols_all[1]
+        pools[c1] = list(pools[c0])
+        vals = list(pools[c0])
+        col0 = numpy.array([vals[i % len(vals)] for i in range(len(train))], dtype=object)
+        col1 = numpy.array([vals[(i * 2 + 1) % len(vals)] for i in range(len(train))], dtype=object)
+        col1[:min(len(vals), len(col1))] = vals[:len(col1)]
+        col0[:min(len(vals), len(col0))] = vals[:len(col0)]
+        if len(vals) > len(train):
+            pools[c0] = pools[c1] = vals[:len(train)]
+        train[c0], train[c1] = col0, col1
+        train[c0], train[c1] = train[c0].astype(object), train[c1].astype(object)
+        ctx.cls("two-columns-with-the-same-vocabulary")
     # every pool value appears at least once? not required: categories are what fit saw
     test = draw(nrow, pools)
     ikind = ["range", "shuffled", "offset", "strings", "duplicated"][case["sub"] % 5]
@@ -153,7 +168,9 @@ def run_case(case, ctx):
     if not explicit:
         cat_cols = cat_cols_all
     remove = None
-    if rng.rand() < 0.2 and not single:
+    if same_vocab:
+        cat_cols = cat_cols_all
+    if (rng.rand() < 0.2 or same_vocab) and not single:
         c = cat_cols[0]
         seen = sorted(set(v for v in train[c].tolist() if not _missing(v)))
         if len(seen) >= 2:
@@ -241,6 +258,18 @@ def run_case(case, ctx):
             ctx.hit("transform.index")
             compare(ctx, K, out, exp, test, cfg, "seen categories")
         ctx.check(test.equals(keep), K + "/input-modified", "transform modified its input frame", cfg=cfg)
+        # 1b. a batch without any row (a filter that selects nothing): the same columns, no row
+        if raised is None and out is not None:
+            try:
+                out_e = tr.transform(test.iloc[0:0])
+                ctx.hit("transform.empty_batch")
+                if len(out_e) != 0 or list(out_e.columns) != list(out.columns):
+                    missing_c = [c_ for c_ in out.columns if c_ not in list(out_e.columns)]
+                    ctx.violation(K + "/empty-batch/columns", "transform of a frame without rows returns %d rows and columns "
+                                  "%r; the same frame with rows gives columns %r (missing: %r)" % (
+                                      len(out_e), list(out_e.columns)[:6], list(out.columns)[:6], missing_c[:4]), cfg=cfg)
+            except Exception as e:
+                ctx.violation(K + "/empty-batch/raised/%s" % type(e).__name__, str(e)[:150], cfg=cfg)
         # 2. an unseen category planted at every (row, column) position
         for i in range(len(test)):
             for c in cat_cols:
